@@ -7,6 +7,7 @@ import (
 	"os/exec"
 	"regexp"
 	"strconv"
+	"syscall"
 	"time"
 )
 
@@ -40,7 +41,12 @@ func RunTLAPS(run *Run, module string, timeout time.Duration) (int, error) {
 		}
 		cmd := exec.CommandContext(ctx, "tlapm", args...)
 		cmd.Dir = dir
+		// (its own process group: a back-end prover that tlapm leaves behind after a time-out is ended with it)
+		cmd.SysProcAttr = &syscall.SysProcAttr{Setpgid: true}
 		out, err = cmd.CombinedOutput()
+		if cmd.Process != nil {
+			syscall.Kill(-cmd.Process.Pid, syscall.SIGKILL)
+		}
 		if m = tlapsOK.FindSubmatch(out); m != nil || ctx.Err() != nil {
 			break
 		}
